@@ -444,7 +444,9 @@ Proof.
          specialize (BCD X); clear X;
          assert (X : t_connfut (t tm) = t_connfut (t s) \/ t_connfut (t tm) = None)
            by (simp_proj; first [left; reflexivity|right; reflexivity]);
-         specialize (BCD X B C D); clear X end).
+         specialize (BCD X); clear X;
+         repeat match goal with E : t_connfut (t _) = _ |- _ => rewrite E in BCD end;
+         specialize (BCD B C D) end).
   all: try (match goal with BCD : _ /\ _ /\ _ |- InvHist ?tm =>
          let B' := fresh "B'" in let C' := fresh "C'" in let D' := fresh "D'" in
          destruct BCD as (B' & C' & D');
@@ -472,6 +474,7 @@ Proof.
          simp_proj;
          first
          [ exact I
+         | match goal with E : k_api (k _) = None |- _ => rewrite E; exact I end
          | match goal with E : k_api (k _) = Some (?n, ?pc) |- _ =>
              try rewrite E in A3; try rewrite E; cbv iota beta in A3; cbv iota beta;
              destruct A3 as [P F]; split;
